@@ -19,8 +19,11 @@ namespace cif {
 inline double as_number(const std::string& s, double nan=NAN) {
   const char* start = s.data();
   const char* end = s.data() + s.size();
-  if (*start == '+')
+  if (*start == '+') {
     ++start;
+    if (*start == '-')  // "+-1" is not a number
+      return nan;
+  }
   // NaN, Inf and -Inf are not allowed in CIF
   char f = start[int(*start == '-')] | 0x20;
   if (f == 'i' || f == 'n')
